@@ -62,6 +62,9 @@ PROPS["C14"] = {
           "Utf8CheckReader over chunks of %d+%d symbolic bytes then EOF: accepts iff concatenation is valid UTF-8" % ab,
           ["packet::literal_data::Utf8CheckReader::{new,read}"], "chunks %d+%d" % ab)
         for ab in [(1, 1), (2, 1), (1, 2), (2, 2), (1, 3), (3, 1)]
+    ] + [
+        H("c14_literal_from_str_3", "c14_lit", "quick", 900, "LiteralData::from_str on every 3-byte ASCII text stores the canonical form", ["packet::LiteralData::from_str", "normalize_lines::normalize_lines"], "L=3 ASCII"),
+        H("c14_literal_from_str_4", "c14_lit", "thorough", 1800, "LiteralData::from_str, 4 bytes", ["packet::LiteralData::from_str", "normalize_lines::normalize_lines"], "L=4 ASCII"),
     ],
 }
 
@@ -78,6 +81,7 @@ C17_CODEC = [
     H("c17_header_old_roundtrip", "c17_codec", "quick", 900, "legacy header for every tag<16 and u32 length vs reference", CODEC, "tag 0..15, len full u32"),
     H("c17_header_parse_total", "c17_codec", "quick", 900, "every 6-octet string: header parser == RFC decoder; reserialise/parse; canonical identity", CODEC, "6 arbitrary octets"),
     H("c17_header_from_parts_rules", "c17_codec", "quick", 600, "illegal header/length combinations refused", CODEC, "tag 0..63, value full u32"),
+    H("c17_maybe_len", "c17_codec", "quick", 300, "PacketLength::maybe_len for every value", CODEC, "full u32"),
 ]
 PROPS["C17"] = {
     "inject": [("src/lib.rs", "c17_codec")],
@@ -176,8 +180,13 @@ C05_CODEC = [
     H("c05_mpi_bits16385", "c05_codec", "quick", 600, "MPI declared 16385 bits (over the 16384 cap), magnitude arbitrary: strip leading zeros, exact bit count, canonical identity", ["types::Mpi::{try_from_reader,to_writer,write_len}", "parsing_reader::BufReadParsing::take_bytes"], "16385 bits (over the 16384 cap)"),
     H("c05_mpi_from_slice_3", "c05_codec", "quick", 900, "Mpi::from_slice on every 3-octet value (leading-zero cases)", ["types::Mpi::{from_slice,to_writer,try_from_reader}"], "3 octets"),
 ]
+C05_MUT = [
+    H("c05_keyflags_setters", "c05_sigmut", "quick", 600, "KeyFlags built through every subset of setters: write_len == octets written, RFC bit positions", ["packet::KeyFlags::{default,set_*,to_writer,write_len}"], "10 symbolic booleans"),
+    H("c05_unhashed_push_remove_small", "c05_sigmut", "quick", 900, "Signature::unhashed_subpacket_push/remove with a 1-octet-length subpacket: header length == original", ["packet::Signature::{unhashed_subpacket_push,unhashed_subpacket_insert,unhashed_subpacket_remove}", "packet::Subpacket::write_len"], "original header length 10..70000 symbolic"),
+    H("c05_unhashed_push_remove_2octet_len", "c05_sigmut", "quick", 900, "same with a 196-octet subpacket (2-octet subpacket length)", ["packet::Signature::{unhashed_subpacket_push,unhashed_subpacket_insert,unhashed_subpacket_remove}", "packet::Subpacket::write_len"], "original header length symbolic"),
+]
 PROPS["C05"] = {
-    "inject": [("src/lib.rs", "c05_codec"), ("src/lib.rs", "c17_codec")],
+    "inject": [("src/lib.rs", "c05_codec"), ("src/lib.rs", "c17_codec"), ("src/packet/signature/types.rs", "c05_sigmut")],
     "mem_gb": 12,
     "level_text": "Bounded model checking of the real parsers/serialisers: for every byte string of the stated lengths the solver "
                   "shows parse/serialise are mutually inverse, write_len equals the octets written and canonical inputs "
@@ -187,7 +196,7 @@ PROPS["C05"] = {
     "bounds": "length codecs: full width; S2K specifiers: type octet in {0,1,2,3,4,5,100,110,111,255} x complete/truncated, other octets arbitrary; MPIs: declared bits in {0,1,8,9,16,17,32,16385}, magnitude arbitrary",
     "outside": "RSA/DSA/ECC parameter validation; 64 KiB subpacket areas; composite certificates beyond the listed harnesses",
     "assumptions": [FMT_STUBS],
-    "harnesses": C05_CODEC + [dict(h, tier="thorough") if h["name"] not in ("c17_header_new_roundtrip", "c17_header_parse_total") else h for h in C17_CODEC],
+    "harnesses": C05_CODEC + C05_MUT + [dict(h, tier="thorough") if h["name"] not in ("c17_header_new_roundtrip", "c17_header_old_roundtrip", "c17_maybe_len") else h for h in C17_CODEC],
 }
 
 # ------------------------------------------------------------------------------------------------
